@@ -8,17 +8,26 @@
   thread `tid` (sequentially consistent, as Go's sync/atomic is). An execution is a list of thread ids; a
   step of a finished (or absent) thread is a no-op.
 
-    Deal            `dealAdd`  : deal := deal + 1, returns the new value             (atomic.AddUint64)
+    Deal            `dealLoadD`: dealt := deal                                         (atomic.LoadUint64)
+                    `dealLoadC dealt`: c := committed                                  (atomic.LoadUint64)
+                    `dealCas dealt c`: if dealt ≥ c ∧ dealt + 1 - c ≥ W: refuse (`dealRefused dealt c`,
+                                  ErrTooManyInFlight); else if deal = dealt then deal := dealt + 1 and return
+                                  it (`dealDone (dealt+1)`, CompareAndSwapUint64 succeeded); else back to `dealLoadD`
+                    (since 624b477; `W` = `State.window`, the real value is the regenerated
+                    `KB.Generated.tsoMaxInFlight` = the backend's slot ring `watchersChanCapacity`)
     GetRevision     `getLoad`  : returns committed                                     (atomic.LoadUint64)
     Commit r        `loadC r`  : cur := committed                                      (atomic.LoadUint64)
                     `casC r cur`: if cur ≥ r go on; else if committed = cur then committed := r, go on
                                   (atomic.CompareAndSwapUint64 succeeded); else back to `loadC r`
                     `loadD r`, `casD r cur`: the same on `deal`; then `commitDone r`.
 
-  The thread-local test `cur >= revision` is folded into the CAS step (it touches no shared state: when it
-  holds, the step changes nothing but the program counter).
+  The thread-local tests (`cur >= revision` in Commit, the window check in Deal) are folded into the CAS step
+  that follows them (they touch no shared state: when they decide, the step changes nothing but the program
+  counter). "The moment of the check" of a Deal is therefore its `dealCas` step; the values it checks are the
+  ones it loaded, kept in the program counter (and in `dealRefused`, as ghost, when it refuses).
 
-  The routines Commit had BEFORE its two repairs are part of the LTS as well, for the refutations:
+  The routines Deal and Commit had BEFORE their repairs are part of the LTS as well, for the refutations:
+    `dealAddOld`             deal := deal + 1, returns the new value: ONE atomic.AddUint64, no window (before 624b477)
     `oldStoreC r`            committed := r unconditionally            (before db7d4ff)
     `midLoadC r`/`midCasC`   the repaired loop on committed, followed by the OLD tail
                              (the code between db7d4ff and 55a7cb8)
@@ -37,8 +46,12 @@ namespace KB.TsoCas
 
 /-- Program counter + locals of one goroutine inside one call. -/
 inductive Pc where
-  | dealAdd
+  | dealLoadD
+  | dealLoadC (dealt : Nat)
+  | dealCas (dealt c : Nat)
   | dealDone (v : Nat)
+  | dealRefused (dealt c : Nat)
+  | dealAddOld
   | getLoad
   | getDone (v : Nat)
   | loadC (r : Nat)
@@ -55,15 +68,23 @@ inductive Pc where
   deriving DecidableEq, Repr
 
 structure State where
+  /-- `MaxInFlight`: how far the dealt revision may run ahead of the committed one (a constant of the run). -/
+  window : Nat
   committed : Nat
   deal : Nat
   threads : List Pc
   deriving DecidableEq, Repr
 
-/-- One atomic instruction of a thread at `pc`, on registers `c` (committed) and `d` (deal):
+/-- One atomic instruction of a thread at `pc`, on registers `c` (committed) and `d` (deal), window `W`:
 new registers and new program counter. -/
-def stepPc (c d : Nat) : Pc → Nat × Nat × Pc
-  | .dealAdd => (c, d + 1, .dealDone (d + 1))
+def stepPc (W c d : Nat) : Pc → Nat × Nat × Pc
+  | .dealLoadD => (c, d, .dealLoadC d)
+  | .dealLoadC dealt => (c, d, .dealCas dealt c)
+  | .dealCas dealt c0 =>
+      if c0 ≤ dealt ∧ W ≤ dealt + 1 - c0 then (c, d, .dealRefused dealt c0)
+      else if d = dealt then (c, dealt + 1, .dealDone (dealt + 1))
+      else (c, d, .dealLoadD)
+  | .dealAddOld => (c, d + 1, .dealDone (d + 1))
   | .getLoad => (c, d, .getDone c)
   | .loadC r => (c, d, .casC r c)
   | .casC r cur =>
@@ -85,6 +106,7 @@ def stepPc (c d : Nat) : Pc → Nat × Nat × Pc
   | .oldCasD r cur =>
       if cur < r ∧ d = cur then (c, r, .oldDone r) else (c, d, .oldDone r)
   | .dealDone v => (c, d, .dealDone v)
+  | .dealRefused a b => (c, d, .dealRefused a b)
   | .getDone v => (c, d, .getDone v)
   | .commitDone r => (c, d, .commitDone r)
   | .oldDone r => (c, d, .oldDone r)
@@ -94,8 +116,8 @@ def step (s : State) (tid : Nat) : State :=
   match s.threads[tid]? with
   | none => s
   | some pc =>
-      let o := stepPc s.committed s.deal pc
-      { committed := o.1, deal := o.2.1, threads := s.threads.set tid o.2.2 }
+      let o := stepPc s.window s.committed s.deal pc
+      { window := s.window, committed := o.1, deal := o.2.1, threads := s.threads.set tid o.2.2 }
 
 /-- An execution: the schedule is the list of thread ids that move, in order. -/
 def run (s : State) (sched : List Nat) : State := sched.foldl step s
@@ -108,18 +130,23 @@ inductive Call where
   deriving DecidableEq, Repr
 
 def Call.entry : Call → Pc
-  | .deal => .dealAdd
+  | .deal => .dealLoadD
   | .get => .getLoad
   | .commit r => .loadC r
 
-/-- Any number of goroutines, each at the entry of its call, on registers with arbitrary contents. -/
-def init (c d : Nat) (calls : List Call) : State :=
-  { committed := c, deal := d, threads := calls.map Call.entry }
+/-- Any number of goroutines, each at the entry of its call, on registers with arbitrary contents, window `W`. -/
+def init (W c d : Nat) (calls : List Call) : State :=
+  { window := W, committed := c, deal := d, threads := calls.map Call.entry }
 
 /-- Program counters of the CURRENT routines only. -/
 def Pc.current : Pc → Bool
-  | .oldStoreC _ | .midLoadC _ | .midCasC _ _ | .oldLoadD _ | .oldCasD _ _ | .oldDone _ => false
+  | .dealAddOld | .oldStoreC _ | .midLoadC _ | .midCasC _ _ | .oldLoadD _ | .oldCasD _ _ | .oldDone _ => false
   | _ => true
+
+/-- Thread is inside a `Deal` call whose (successful) add has not executed yet. -/
+def Pc.dealing : Pc → Bool
+  | .dealLoadD | .dealLoadC _ | .dealCas _ _ | .dealAddOld => true
+  | _ => false
 
 /-- Thread `t` is inside (or has finished) a current `Commit r`. -/
 def Pc.inCommit (r : Nat) : Pc → Bool
@@ -131,6 +158,16 @@ def Pc.inCommit (r : Nat) : Pc → Bool
 `for { cur := atomic.LoadUint64(&n.F); if cur >= revision || atomic.CompareAndSwapUint64(&n.F, cur, revision) { break } }`,
 first on `committedRevision` (`loadC`/`casC`), then on `dealRevision` (`loadD`/`casD`). -/
 def expectedShape : List String := ["raiseLoop:committedRevision", "raiseLoop:dealRevision"]
+
+/-- `Deal`'s body as the extractor normalises it: one `for { … }` holding exactly
+`dealt := atomic.LoadUint64(&n.dealRevision)` (`dealLoadD`), `committed := atomic.LoadUint64(&n.committedRevision)`
+(`dealLoadC`), `if dealt >= committed && dealt+1-committed >= MaxInFlight { return 0, ErrTooManyInFlight }` and
+`if atomic.CompareAndSwapUint64(&n.dealRevision, dealt, dealt+1) { return dealt + 1, nil }` (both `dealCas`). -/
+def expectedDealShape : List String :=
+  ["loop{", "load:dealRevision", "load:committedRevision", "refuseIfWindowFull:MaxInFlight", "casIncReturn:dealRevision", "}"]
+
+/-- Shape of the one-instruction Deal `dealAddOld` (before 624b477). -/
+def oldDealShape : List String := ["returnAdd1:dealRevision"]
 
 /-- Shape of the routine `oldStoreC; oldLoadD; oldCasD` (before db7d4ff). -/
 def oldShape : List String := ["store:committedRevision", "load:dealRevision", "casIfBelow:dealRevision"]
